@@ -14,7 +14,7 @@ use crate::{
 };
 
 /// Mutation classes = slots of the outcome matrix of the seeded reader families.
-pub const CLASSES: [&str; 40] = [
+pub const CLASSES: [&str; 41] = [
     "field:zero",
     "field:one",
     "field:umax(-1)",
@@ -55,6 +55,7 @@ pub const CLASSES: [&str; 40] = [
     "bgzf:member-shuffle",
     "stacked(2-3 mutations)",
     "truncate+garbage",
+    "record:long-run-inserted(length-fixed)",
 ];
 
 fn class_index(name: &str) -> usize {
@@ -144,6 +145,25 @@ fn binary_once(rng: &mut Rng, b: &mut Vec<u8>, l: &Layout) -> (&'static str, Str
     let nf = l.fields.len();
     let nr = l.records.len();
     let pick = rng.below(100);
+    if nr > 0 && nf > 0 && rng.chance(1, 40) {
+        // a long run of one byte inside a record whose length prefix is adjusted (BAM block_size, BCF l_shared /
+        // l_indiv): deep nesting / recursion / quadratic behaviour in a decoder shows up as a stack overflow or a hang
+        let (s, e) = l.records[rng.usize_below(nr)];
+        let inside: Vec<_> = l.fields.iter().filter(|f| f.off > s + 8 && f.off < e).collect();
+        let prefix_is_bam = l.fields.iter().any(|f| f.off == s && f.name == "bam.block_size");
+        let prefix_is_bcf = l.fields.iter().any(|f| f.off == s && f.name == "bcf.l_shared");
+        if !inside.is_empty() && (prefix_is_bam || prefix_is_bcf) {
+            let at = rng.pick(&inside).off;
+            let n = *rng.pick(&[3000usize, 40_000, 300_000]);
+            let byte = *rng.pick(&[0xf1u8, 0xf7, 0xf2, 0xff, 0x00, b'B', b'Z', 0x11, 0x80]);
+            let cur_shared = read_le(b, s, 4);
+            let which = if prefix_is_bcf && at >= s + 8 + cur_shared as usize { s + 4 } else { s };
+            let cur = read_le(b, which, 4);
+            write_le(b, which, 4, cur + n as u64);
+            b.splice(at..at, std::iter::repeat_n(byte, n));
+            return ("record:long-run-inserted(length-fixed)", format!("{n} x {byte:#04x} inserted at {at}, length prefix @{which} {cur} -> {}", cur + n as u64));
+        }
+    }
     if nf > 0 && pick < 62 {
         let f = l.fields[rng.usize_below(nf)];
         if pick < 6 && nf > 1 {
